@@ -364,7 +364,7 @@ package rtree
 //@   modifies nothing
 
 // The sort keeps each entry together with its distance: Swap exchanges both, Less looks at the distances.
-//@ pred pairedD(p geom.Point, es []entry, ds []float64) = len(ds) >= len(es) && (forall i int :: 0 <= i && i < len(es) ==> es[i].bb != nil && ds[i] == mdS(p, *es[i].bb))
+//@ opaque pred pairedD(p geom.Point, es []entry, ds []float64) = len(ds) >= len(es) && (forall i int :: 0 <= i && i < len(es) ==> es[i].bb != nil && ds[i] == mdS(p, *es[i].bb))
 
 //@ func (s entrySlice) Len
 //@   prop C12
